@@ -1,74 +1,200 @@
-"""C10 contracts"""
-from pyvc.contract import contract
+"""C10: rate-3/4 trellis.  Functions under contract: all Trellis34 static methods.  Tables are symbolically indexable
+views (point-wise finite functions); the multiplicatively forking decoder loop points_to_tribits is cut per iteration."""
+from pyvc.contract import contract, stub
 import okdmr.dmrlib.etsi.fec.trellis as tr
 
 T = tr.Trellis34
+GHOST = {}
 
 
-def _num(vc, x):
-    """normalise an element (int | SInt | SFun) to something comparable with vc.eq"""
-    if vc.mode == "native":
-        return int(x)
-    from pyvc.sfun import SFun
-    return x.to_sint() if isinstance(x, SFun) else x
+def num(vc, x):
+    return int(x) if vc.mode == "native" else vc.val(x)
 
 
 @contract("Trellis34.tables", "okdmr.dmrlib.etsi.fec.trellis:Trellis34", ["C10"])
 def tables(vc):
     M = list(T.TRELLIS34_INTERLEAVE_MATRIX)
-    vc.prove("interleave_is_permutation_of_98", sorted(M) == list(range(98)))
-    vc.prove("dibit_map_is_bijection", len(set(dict(T.TRELLIS34_DIBITS).values())) == 4 and set(dict(T.TRELLIS34_DIBITS).values()) == {3, 1, -1, -3})
-    vc.prove("constellation_map_is_bijection", sorted(dict(T.TRELLIS34_CONSTELLATION_POINTS).values()) == list(range(16)))
+    vc.prove("interleave_matrix_is_a_permutation_of_98", sorted(M) == list(range(98)))
+    D = dict(T.TRELLIS34_DIBITS)
+    vc.prove("dibit_map_is_a_bijection", set(D.keys()) == {(0, 0), (0, 1), (1, 0), (1, 1)} and sorted(D.values()) == [-3, -1, 1, 3])
+    vc.prove("dibit_reverse_map_is_its_inverse", all(tuple(dict(T.TRELLIS34_DIBITS_REVERSE)[v]) == tuple(k) for k, v in D.items()) and len(dict(T.TRELLIS34_DIBITS_REVERSE)) == 4)
+    P = dict(T.TRELLIS34_CONSTELLATION_POINTS)
+    vc.prove("constellation_map_is_a_bijection_onto_16_points", sorted(P.values()) == list(range(16)) and len(P) == 16 and all(a in (-3, -1, 1, 3) and b in (-3, -1, 1, 3) for a, b in P))
+    vc.prove("constellation_reverse_map_is_its_inverse", all(tuple(dict(T.TRELLIS34_CONSTELLATION_POINTS_REVERSE)[v]) == tuple(k) for k, v in P.items()) and len(dict(T.TRELLIS34_CONSTELLATION_POINTS_REVERSE)) == 16)
     tab = list(T.TRELLIS34_ENCODER_STATE_TRANSITION)
-    vc.prove("every_state_row_has_8_distinct_points", all(len(set(tab[s * 8:(s + 1) * 8])) == 8 for s in range(8)) and len(tab) == 64)
+    vc.prove("transition_table_has_64_entries_in_0_15", len(tab) == 64 and all(0 <= x <= 15 for x in tab))
+    vc.prove("every_state_emits_8_distinct_points", all(len(set(tab[s * 8:(s + 1) * 8])) == 8 for s in range(8)))
 
 
-tables.shapes = lambda tier: [dict()]
-
-
-@contract("Trellis34.encode_front_half_inverse", "okdmr.dmrlib.etsi.fec.trellis:Trellis34.encode", ["C10"])
-def front_half(vc):
-    b = vc.bits(144, "b")
-    e = T.encode(b)
-    vc.prove("encode_length_196", len(e) == 196)
+@contract("Trellis34.encode", "okdmr.dmrlib.etsi.fec.trellis:Trellis34.encode", ["C10", "C19"])
+def encode(vc, extra, as_bytes):
+    """encode: 196 bits; the decoder's front half (dibits -> deinterleave -> points) recovers exactly the encoder's point
+    sequence (so the two permutations and the two point/dibit maps are mutually inverse on everything encode emits)"""
+    if as_bytes:
+        raw = vc.bytes_(18 + extra, "raw")
+        b = vc.mkbits(sum([vc.bitlist(x, 8) for x in (list(raw) if vc.mode == "native" else raw.v)], []))
+        e = T.encode(raw)
+    else:
+        b = vc.bits(144 + extra, "b")
+        before = b.copy()
+        e = T.encode(b)
+        vc.prove("frame_argument_unchanged", vc.eq(b, before))
+    vc.prove("yields_196_bits", len(e) == 196)
     pts = T.dibits_to_points(T.deinterleave(T.bits_to_dibits(e)))
-    want = T.tribits_to_points(T.bits_to_tribits(b))
+    want = T.tribits_to_points(T.bits_to_tribits(b[:144]))
+    vc.prove("49_points", len(pts) == 49 and len(want) == 49)
     for i in range(49):
-        vc.prove("points_recovered", vc.eq(_num(vc, pts[i]), _num(vc, want[i])))
+        vc.prove("decoder_front_half_recovers_the_encoder_points", vc.eq(num(vc, pts[i]), num(vc, want[i])))
     if vc.mode == "native":
-        vc.prove("decode_inverts_encode", T.decode(e) == b)
+        vc.prove("decode_inverts_encode", T.decode(e) == b[:144])
 
 
-front_half.shapes = lambda tier: [dict()]
+encode.shapes = lambda tier: [dict(extra=0, as_bytes=False), dict(extra=0, as_bytes=True), dict(extra=8, as_bytes=False)]
+
+
+@contract("Trellis34.interleave", "okdmr.dmrlib.etsi.fec.trellis:Trellis34.interleave", ["C10"])
+def interleave(vc):
+    """interleave / deinterleave are inverse permutations of the 98 dibit positions (contents: any dibit values)"""
+    from array import array
+
+    b = vc.bits(196, "b")
+    d = T.bits_to_dibits(b)
+    vc.prove("98_dibits", len(d) == 98)
+    x = T.interleave(T.deinterleave(d))
+    y = T.deinterleave(T.interleave(d))
+    vc.prove("98_out", len(x) == 98 and len(y) == 98)
+    for i in range(98):
+        vc.prove("interleave_after_deinterleave_is_identity", vc.eq(_sgn(vc, x[i]), _sgn(vc, d[i])))
+        vc.prove("deinterleave_after_interleave_is_identity", vc.eq(_sgn(vc, y[i]), _sgn(vc, d[i])))
+    back = T.dibits_to_bits(d)
+    vc.prove("dibits_to_bits_inverts_bits_to_dibits", vc.eq(back, b))
+
+
+def _sgn(vc, v):
+    """dibit value -3..3 -> natural number for comparison"""
+    if vc.mode == "native":
+        return int(v) + 3
+    from pyvc.sfun import SFun
+
+    r = SFun.map(lambda t: t + 3, v) if isinstance(v, SFun) else v + 3
+    return r.to_sint() if isinstance(r, SFun) else r
+
+
+@contract("Trellis34.tribits", "okdmr.dmrlib.etsi.fec.trellis:Trellis34.tribits_to_bits", ["C10"])
+def tribits(vc):
+    b = vc.bits(144, "b")
+    t = T.bits_to_tribits(b)
+    vc.prove("49_tribits_last_is_flush_zero", len(t) == 49 and vc.eq(num(vc, t[48]), 0))
+    back = T.tribits_to_bits(t)
+    vc.prove("tribits_to_bits_inverts_bits_to_tribits", vc.eq(back, b))
 
 
 @contract("Trellis34.points_to_tribits", "okdmr.dmrlib.etsi.fec.trellis:Trellis34.points_to_tribits", ["C10"])
-def decode_loop(vc, k):
+def decode_loop(vc, phase):
+    """loop cut with the functional invariant  last = t[k-1], out[:k] = t[:k], out[k:] = 0  where t are the tribits whose
+    encoding the argument is.  Per iteration the received point k is additionally left FREE (4 bits): the body must
+    raise AssertionError exactly when no successor of state t[k-1] emits that point, and decode it otherwise."""
     b = vc.bits(144, "b")
     trib = T.bits_to_tribits(b)
     pts = T.tribits_to_points(trib)
+    tab = list(T.TRELLIS34_ENCODER_STATE_TRANSITION)
     if vc.mode == "native":
         out = T.points_to_tribits(pts)
-        vc.prove("preserved", list(out) == list(trib))
+        vc.prove("post_returns_the_tribits", list(out) == list(trib))
+        if phase not in ("init", "post"):
+            k = int(phase)
+            p = vc.uint(4, "p")
+            state = 0 if k == 0 else int(trib[k - 1])
+            row = tab[state * 8:state * 8 + 8]
+            bad = list(pts)
+            bad[k] = p
+            from array import array
+
+            try:
+                o2 = T.points_to_tribits(array("B", bad))
+                # later symbols may legitimately fail; what matters: no exception raised at index k means p is in the row
+                vc.prove("impossible_point_is_rejected", p in row)
+                vc.prove("possible_point_is_decoded", o2[k] == row.index(p))
+            except AssertionError as e:
+                if ("index %d " % k) in str(e):
+                    vc.prove("impossible_point_is_rejected", p not in row)
         return
     from pyvc import cut, shadows
-    newf, _ = cut.cut(T.points_to_tribits, 0, ["last", "out"])
+    from pyvc.sfun import SFun
+
+    free = phase not in ("init", "post")
+    if free:
+        k = int(phase)
+        p = vc.uint(4, "p")
+        pl = list(pts)
+        pl[k] = p
+        arg = shadows.SArray("B", pl)
+        lastk = trib[k - 1] if k > 0 else 0
+        # membership of p in the row of state lastk, and the tribit that emits it (finite functions over <= 7 atoms)
+        member = SFun.map(lambda s, q: 1 if q in tab[s * 8:s * 8 + 8] else 0, lastk, p)
+        which = SFun.map(lambda s, q: tab[s * 8:s * 8 + 8].index(q) if q in tab[s * 8:s * 8 + 8] else 0, lastk, p)
+    else:
+        arg = pts
 
     def state(kk, loc, it):
         return ((trib[kk - 1] if kk > 0 else 0), shadows.SArray("B", [trib[j] if j < kk else 0 for j in range(49)]))
 
     def check(kk, loc, carried):
         last, out = carried
-        vc.prove("preserved", vc.eq(_num(vc, last), trib[kk - 1]))
+        if kk == 0:
+            vc.prove("invariant_init", vc.and_(vc.eq(num(vc, last), 0), *[vc.eq(num(vc, out[j]), 0) for j in range(49)]))
+            vc.prove("invariant_init_49_slots", len(out) == 49)
+            return
+        # reached only if the body did not raise: the free point is emitted by the state, and is decoded to its tribit
+        vc.prove("impossible_point_is_rejected", vc._b(member))
+        vc.prove("possible_point_is_decoded", vc.and_(vc.eq(num(vc, last), num(vc, which)), vc.eq(num(vc, out[kk - 1]), num(vc, which))))
         for j in range(49):
-            vc.prove("preserved", vc.eq(_num(vc, out[j]), trib[j] if j < kk else 0))
+            if j != kk - 1:
+                vc.prove("invariant_preserved_other_slots", vc.eq(num(vc, out[j]), trib[j] if j < kk else 0))
 
-    newf.__globals__["__vc"] = cut.LoopCtl(("iter", k), state, check)
     try:
-        newf(pts)
-        vc.prove("loop_reached", False)
-    except cut.PathDone:
-        pass
+        st, ret = cut.run_cut(vc, T.points_to_tribits, 0, ["last", "out"], phase, state, check, (arg,))
+    except AssertionError:
+        if not free:
+            raise
+        vc.prove("possible_point_is_not_rejected", vc.not_(vc._b(member)))
+        return
+    if st == "post":
+        vc.prove("post_returns_49_tribits", len(ret) == 49)
+        for j in range(49):
+            vc.prove("post_returns_the_tribits", vc.eq(num(vc, ret[j]), trib[j]))
 
 
-decode_loop.shapes = lambda tier: [dict(k=k) for k in range(49)]
+decode_loop.shapes = lambda tier: [dict(phase=p) for p in ["init", "post"] + list(range(49))]
+decode_loop.native_random = 100
+
+
+@stub("Trellis34.points_to_tribits", "okdmr.dmrlib.etsi.fec.trellis:Trellis34.points_to_tribits", provided_by="Trellis34.points_to_tribits")
+def points_to_tribits_stub(points):
+    """what `decode` sees of points_to_tribits: for points that ARE the encoding of the ghost tribits (call-site
+    obligation, proved point by point) it returns those tribits"""
+    vc, trib, want = GHOST["vc"], GHOST["trib"], GHOST["points"]
+    from pyvc import shadows
+
+    ok = len(points) == 49
+    vc.prove("call[points_to_tribits].pre.argument_is_an_encoder_output", vc.and_(ok, *[vc.eq(num(vc, points[i]), num(vc, want[i])) for i in range(49)]))
+    return shadows.SArray("B", list(trib))
+
+
+@contract("Trellis34.decode", "okdmr.dmrlib.etsi.fec.trellis:Trellis34.decode", ["C10", "C19"], stubs=["Trellis34.points_to_tribits"])
+def decode(vc, as_bytes):
+    b = vc.bits(144, "b")
+    e = T.encode(b)
+    before = e.copy()
+    GHOST.update(vc=vc, trib=T.bits_to_tribits(b), points=T.tribits_to_points(T.bits_to_tribits(b)))
+    d = T.decode(e, as_bytes=as_bytes)
+    if as_bytes:
+        vc.prove("decode_encode_is_identity_bytes", vc.eq(d, b.tobytes()))
+        vc.prove("18_octets", len(d) == 18)
+    else:
+        vc.prove("decode_encode_is_identity", vc.eq(d, b))
+        vc.prove("144_bits", len(d) == 144)
+    vc.prove("frame_argument_unchanged", vc.eq(e, before))
+
+
+decode.shapes = lambda tier: [dict(as_bytes=False), dict(as_bytes=True)]
